@@ -56,6 +56,47 @@ def _scale_fn(algo, delta, K, m, noise_var):
     raise ValueError(algo)
 
 
+def _instance_scale_fn(algo, delta, K, m, noise_var):
+    """Same schedule read from a REAL algorithm instance (public constructor, synthetic dataset of K designs)."""
+    from vverif.harness import algos as ha
+    from vverif.harness import data as hdata
+
+    name = {"PaVeBaGP-IH": "PaVeBaGP", "PaVeBaGP-DE": "PaVeBaGP", "PaVeBaPartialGP-rect": "PaVeBaPartialGP",
+            "PaVeBaPartialGP-ell": "PaVeBaPartialGP"}.get(algo, algo)
+    spec = {"algo": name, "cone": {"kind": "comp", "m": m}, "eps": 0.1, "delta": delta, "noise_var": noise_var, "contraction": 1,
+            "X": hdata.grid_inputs(K, 1).tolist(), "Y": [[0.0] * m for _ in range(K)], "seed": 0, "source": "stub",
+            "stub": {"A": [[0.0] * (m * m)], "diag": [[1.0] * m], "cov_scale": 1.0, "rho": 0.9, "vtab": [[0.0] * m]}}
+    if algo == "PaVeBaGP-DE":
+        spec["conf"] = "DE"
+    if algo == "PaVeBaPartialGP-ell":
+        spec["conf"] = "hyperellipsoid"
+    alg, _ = ha.build(spec)
+    meth = {"PaVeBa": "compute_radius", "PaVeBaGP": "compute_alpha", "PaVeBaPartialGP": "compute_alpha"}.get(name, "compute_beta")
+
+    def f(t):
+        alg.round = t - 1 if name in ("VOGP", "EpsilonPAL") else t
+        if name == "Auer":
+            alg.S = {0}
+        return getattr(alg, meth)()
+
+    return f
+
+
+def check_crosscheck(case):
+    """The namespace route used for large K agrees with a real instance (small K), for several rounds."""
+    algo, delta, K, m = case["algo"], case["delta"], min(case["K"], 40), case["m"]
+    noise_var = case["noise_var"] if algo != "Auer" else min(1.0, case["noise_var"])
+    f1 = _scale_fn(algo, delta, K, m, noise_var)
+    f2 = _instance_scale_fn(algo, delta, K, m, noise_var)
+    for t in (1, 2, 3, 7, 50, 1000, 2**20):
+        a, b = np.asarray(f1(t), float), np.asarray(f2(t), float)
+        if a.shape != b.shape or not np.allclose(a, b, rtol=1e-12, atol=0):
+            from vverif.core import HarnessError
+
+            raise HarnessError(f"schedule routes disagree for {algo} at t={t}: namespace {a} vs instance {b}")
+    return Result.ok(["algo=" + algo, "crosscheck"], True)
+
+
 def check(case):
     from vopy.design_space import FixedPointsDesignSpace
 
@@ -73,6 +114,13 @@ def check(case):
     ds = FixedPointsDesignSpace(pts, m, confidence_type="hyperellipsoid" if ell else "hyperrectangle")
     stub = StubModel(pts, np.zeros((1, m)), Sigma[None])
     f = _scale_fn(algo, delta, K, m, noise_var)
+    try:
+        f(1)
+    except AttributeError:
+        # the schedule now reads an attribute the namespace does not carry: fall back to a real instance (K capped)
+        K = min(K, 200)
+        f = _instance_scale_fn(algo, delta, K, m, noise_var)
+        labels.append("instance-route")
 
     def p_miss(t):
         scale = f(t)
@@ -148,6 +196,8 @@ def st_case(draw, algo=None):
 
 
 COMPONENTS = [
+    Component("routes_crosscheck", check_crosscheck, strategy=st_case, quick=48, thorough=600,
+              rule="schedule via unbound method on a namespace == schedule of a real instance (K <= 40), 7 rounds"),
     Component("union_bound", check, strategy=st_case, quick=800, thorough=40000,
               rule="8 algorithm/confidence-type variants; delta in (1e-7, 1-1e-7) dense towards both ends; K = 1..1e6; m = 2..6"),
 ]
